@@ -37,6 +37,35 @@ mod verif_witness_generated_app {
         assert!(w.verify().is_err());
         let _ = std::fs::remove_dir_all(d);
     }
+    /// an SDK manifest with a history (obsolete dependencies next to each other, a user-added key, stale values) is brought up
+    /// to date by ONE normal run: the next run changes nothing and `--check` is satisfied
+    #[test]
+    fn a_manifest_with_a_history_is_fixed_by_one_run() {
+        use cargo_manifest::Dependency;
+        let histories = [
+            "[package]\nname = \"application\"\nversion = \"0.1.0\"\nedition = \"2018\"\n\n[dependencies]\nold_a = \"1\"\nold_b = \"2\"\nold_c = \"3\"\nhttp = \"0.2\"\n",
+            "[package]\nname = \"application\"\nversion = \"0.1.0\"\n\n[dependencies]\nold_a = \"1\"\nold_b = { version = \"2\", features = [\"x\"] }\n\n[dev-dependencies]\ninsta = \"1\"\n",
+            "[package]\nname = \"application\"\nversion = \"0.1.0\"\nedition = \"2021\"\n\n[dependencies]\n",
+        ];
+        for (n, old) in histories.iter().enumerate() {
+            let d = dir(&format!("hist{n}"));
+            std::fs::write(d.join("Cargo.toml"), old).unwrap();
+            let m = || { let mut m = manifest(); m.dependencies.insert("http".to_string(), Dependency::Simple("1".into())); m.dependencies.insert("pavex".to_string(), Dependency::Simple("0.2".into())); m };
+            let mut w = AppWriter::update_mode();
+            GeneratedApp::persist_manifest(&m(), &d, &mut w).unwrap();
+            let text = std::fs::read_to_string(d.join("Cargo.toml")).unwrap();
+            assert!(!text.contains("old_a") && !text.contains("old_b") && !text.contains("old_c"), "history {n}: obsolete dependencies survive a normal run:\n{text}");
+            age(&d.join("Cargo.toml"));
+            let after_first = snapshot(&d);
+            let mut c = AppWriter::check_mode();
+            GeneratedApp::persist_manifest(&m(), &d, &mut c).unwrap();
+            assert!(c.verify().is_ok(), "history {n}: --check fails right after a normal run:\n{text}");
+            let mut w = AppWriter::update_mode();
+            GeneratedApp::persist_manifest(&m(), &d, &mut w).unwrap();
+            assert_eq!(snapshot(&d), after_first, "history {n}: re-running on unchanged inputs rewrote the manifest");
+            let _ = std::fs::remove_dir_all(d);
+        }
+    }
     #[test]
     fn persist_manifest_converges() {
         let d = dir("conv");
@@ -131,6 +160,8 @@ mod verif_witness_generated_app {
                 m.dependencies.insert("http".to_string(), Dependency::Simple("1".into()));
                 GeneratedApp { lib_rs: quote::quote! { pub fn run() -> u8 { 1 } }, cargo_toml: m, package_graph }
             };
+            // the package graph as computed BEFORE the first generation (`--precomputed-metadata`): reused by every later step
+            let stale_graph_app = app();
             // (1) --check before anything was generated
             age_all(&project);
             let before = tree(&project);
@@ -159,6 +190,19 @@ mod verif_witness_generated_app {
             let second = tree(&project);
             for (a, b) in first.iter().zip(&second) { assert_eq!((&a.0, String::from_utf8_lossy(&a.1), a.2), (&b.0, String::from_utf8_lossy(&b.1), b.2), "{what}: re-running on unchanged inputs modified {}", a.0); }
             assert_eq!(first.len(), second.len(), "{what}: re-running on unchanged inputs created or removed files");
+            // (5) the same again with the metadata that was computed before the SDK existed, and with a stray file in the SDK
+            std::fs::write(project.join("server_sdk/src/notes_by_the_user.rs"), "// mine\n").unwrap();
+            age_all(&project);
+            let third = tree(&project);
+            let mut w = AppWriter::check_mode();
+            stale_graph_app.clone().persist(std::path::Path::new("server_sdk"), &mut w).unwrap();
+            assert_eq!(tree(&project), third, "{what}: --check (precomputed metadata, stray file in src) touched something");
+            assert!(w.verify().is_ok(), "{what}: --check (precomputed metadata) fails although a normal run changes nothing");
+            let mut w = AppWriter::update_mode();
+            stale_graph_app.clone().persist(std::path::Path::new("server_sdk"), &mut w).unwrap();
+            let fourth = tree(&project);
+            for (a, b) in third.iter().zip(&fourth) { assert_eq!((&a.0, String::from_utf8_lossy(&a.1), a.2), (&b.0, String::from_utf8_lossy(&b.1), b.2), "{what}: a run with precomputed metadata on unchanged inputs modified {}", a.0); }
+            assert_eq!(third.len(), fourth.len(), "{what}: a run on unchanged inputs created or removed files");
             let _ = std::fs::remove_dir_all(project);
         }
         println!("VERIF-BOUNDED test=the_whole_persist_converges_and_check_mode_touches_nothing evaluations=3 bound=three root-manifest shapes (plain package, workspace without the sdk, workspace without members) x (check, run, check, run) on real scratch projects");
